@@ -615,7 +615,6 @@ func anySym(*Sym) bool { return true }
 
 var _ = token.ADD
 
-
 // looksInt: the symbol denotes an integer (by type or by construction).
 func looksInt(s *Sym) bool {
 	if s == nil {
